@@ -39,6 +39,8 @@ def run(ck: Checker, prog: Program, tier: str):
     from . import c15
     with ck.borrow(c15, "C09.R2a+"):
         ck.guard(c15.run, ck, prog, tier)
+    from .common import check_identity_comparisons as _cic
+    ck.guard(_cic, ck, prog, "C09.R1", "C09")
 
 
 def _entry_effects(ck: Checker, prog: Program, rules=("R1", "R2a", "R2b", "R3")):
